@@ -12,7 +12,7 @@ GSpec == GInit /\ [][GNext]_<<vars, obs>>
 SetJ(S) == IF S = {} THEN <<>> ELSE LET RECURSIVE F(_) F(T) == IF T = {} THEN <<>> ELSE LET x == CHOOSE x \in T : TRUE IN <<x>> \o F(T \ {x}) IN F(S)
 ObsJ == [i \in 1..Len(obs) |->
            IF obs[i].step.op = "load"
-           THEN [op |-> "load", ex |-> SetJ(obs[i].step.ex), all |-> obs[i].step.all, imm |-> obs[i].step.imm,
+           THEN [op |-> "load", ex |-> SetJ({e \in Exprs : obs[i].step.mult[e] > 0}), mult |-> obs[i].step.mult, all |-> obs[i].step.all, imm |-> obs[i].step.imm,
                  map |-> SetJ(obs[i].map), mall |-> obs[i].mall]
            ELSE [op |-> "drain", map |-> SetJ(obs[i].map), mall |-> obs[i].mall]]
 Emit == (Len(obs) = GenDepth) => PrintT(<<"VH", ToJson(ObsJ)>>)
